@@ -185,6 +185,22 @@ def run(chk):
                             (chk.holds if ok else chk.violated)("R2", inst, "numbers = From_%s(slots) in order; unit text %r" % (x, abbr) if ok else why, short(f["loc"]))
                         except ev.Inconclusive as e:
                             chk.inconclusive("R2", inst, str(e), short(f["loc"]))
+        # R4: reading back in the construction unit / converting a unit to itself is the identity map, for every unit
+        from fractions import Fraction as _Fr
+        for ut in M.unit_types():
+            for x in M.T.enumerators(ut):
+                inst = "%s::%s<%s> From o To" % (M.short(ut), x, T)
+                try:
+                    comp = affine.compose(C.frm(ut, x), C.to(ut, x))
+                    okA = close(comp.A, affine.num(1))
+                    okB = all(abs(v) < _Fr(1, 2 ** 60) for v in comp.B.values())
+                    if okA and okB:
+                        chk.holds("R4", inst, "identity", "", nontrivial=(x != M.T.standard.get(ut)))
+                    else:
+                        fr = M.conversion_fn(ut, x, "FromStandard")
+                        chk.violated("R4", inst, "constructing in %s and reading back in %s gives (%s)*v + (%s), not v" % (x, x, affine.n_show(comp.A), affine.n_show(comp.B)), short(fr["loc"]) if fr else "")
+                except ev.Inconclusive as e:
+                    chk.inconclusive("R4", inst, str(e), "")
         free_overloads(chk, F, M, C, T)
     chk.floor("member entry-point instances", n, 5000 if chk.tier != "thorough" else 20000)
     chk.coverage["member_entry_point_instances"] = n
